@@ -80,13 +80,146 @@ def groups(tier, seed):
                         gs.append(dict(st, kind='metric', level=lvl))
                         if N <= 4 or (spec == 'pure' and not heavy(fam)):
                             gs.append(dict(st, kind='evol', level=lvl))
+    # belief propagation on loop-free STATES: gates on the bonds of a spanning tree of a 2x3 / 3x2 / 3x3 lattice only
+    for fam, sym in (('spinless', 'U1'), ('spinless', 'Z2'), ('spin12', 'Z2')):
+        for dims in ((2, 3), (3, 2), (3, 3)):
+            for tree in range(len(TREES)):
+                gs.append({'fam': fam, 'sym': sym, 'dims': list(dims), 'spec': 'pure', 'var': 0, 'kind': 'bptree', 'tree': tree, 'level': 2})
     cost = lambda g: -(g['dims'][0] * g['dims'][1]) ** 2 * (4 if heavy(g['fam']) else 1) * (2 if g['kind'] == 'evol' else 1)
     gs.sort(key=cost)
     return gs
 
 
 def run_group(g, acc):
-    {'measure': run_measure, 'metric': run_metric, 'evol': run_evol}[g['kind']](g, acc)
+    {'measure': run_measure, 'metric': run_metric, 'evol': run_evol, 'bptree': run_bptree}[g['kind']](g, acc)
+
+
+# spanning trees of an Nx x Ny lattice, as functions (Nx, Ny) -> list of bonds
+def _snake_rows(Nx, Ny):
+    b = [((x, y), (x, y + 1)) for x in range(Nx) for y in range(Ny - 1)]
+    return b + [((x, (Ny - 1) if x % 2 == 0 else 0), (x + 1, (Ny - 1) if x % 2 == 0 else 0)) for x in range(Nx - 1)]
+
+
+def _snake_cols(Nx, Ny):
+    b = [((x, y), (x + 1, y)) for y in range(Ny) for x in range(Nx - 1)]
+    return b + [(((Nx - 1) if y % 2 == 0 else 0, y), ((Nx - 1) if y % 2 == 0 else 0, y + 1)) for y in range(Ny - 1)]
+
+
+def _comb_rows(Nx, Ny):      # first column plus every row
+    return [((x, 0), (x + 1, 0)) for x in range(Nx - 1)] + [((x, y), (x, y + 1)) for x in range(Nx) for y in range(Ny - 1)]
+
+
+def _comb_cols(Nx, Ny):      # first row plus every column
+    return [((0, y), (0, y + 1)) for y in range(Ny - 1)] + [((x, y), (x + 1, y)) for y in range(Ny) for x in range(Nx - 1)]
+
+
+def _inverted_u(Nx, Ny):     # up the first column, along the top row, down the other columns; last column hangs from the bottom
+    b = [((x, 0), (x + 1, 0)) for x in range(Nx - 1)] + [((0, y), (0, y + 1)) for y in range(Ny - 1)]
+    b += [((x, 1), (x + 1, 1)) for x in range(Nx - 1)] if Ny > 1 else []
+    b += [((Nx - 1, y), (Nx - 1, y + 1)) for y in range(1, Ny - 1)]
+    b += [((x, y), (x + 1, y)) for y in range(2, Ny) for x in range(Nx - 2, -1, -1)][:0]
+    # attach the remaining sites of columns >= 2 upwards from the bottom row
+    for y in range(2, Ny):
+        b += [((x, y), (x + 1, y)) for x in range(Nx - 1)]
+        b = [e for e in b if e != ((0, y - 1), (0, y))]
+    return b
+
+
+def _path33(k):
+    """the 8 images under the symmetries of the square of the 7-site path (2,0)-(1,0)-(0,0)-(0,1)-(1,1)-(2,1)-(2,2) on 3x3
+    (two sites stay unentangled): information has to travel through messages of every direction in turn"""
+    base = [(2, 0), (1, 0), (0, 0), (0, 1), (1, 1), (2, 1), (2, 2)]
+
+    def img(s):
+        x, y = s
+        if k & 1:
+            x = 2 - x
+        if k & 2:
+            y = 2 - y
+        if k & 4:
+            x, y = y, x
+        return (x, y)
+
+    def f(Nx, Ny):
+        if (Nx, Ny) != (3, 3):
+            return None
+        p = [img(s_) for s_ in base]
+        return [tuple(sorted((a, b))) for a, b in zip(p[:-1], p[1:])]
+    return f
+
+
+TREES = [_snake_rows, _snake_cols, _comb_rows, _comb_cols, _inverted_u] + [_path33(k) for k in range(8)]
+
+
+def is_spanning_tree(bonds, Nx, Ny, forest=False):
+    sites = {(x, y) for x in range(Nx) for y in range(Ny)}
+    if bonds is None or (len(bonds) != len(sites) - 1 and not forest) or len(set(bonds)) != len(bonds):
+        return False
+    comp = {s: s for s in sites}
+
+    def find(s):
+        while comp[s] != s:
+            s = comp[s]
+        return s
+    for a, b in bonds:
+        ra, rb = find(a), find(b)
+        if ra == rb:
+            return False
+        comp[ra] = rb
+    return forest or len({find(s) for s in sites}) == 1
+
+
+def run_bptree(g, acc):
+    loc = PG.PLocal(g['fam'], g['sym'])
+    Nx, Ny = g['dims']
+    geo = PG.lattice(g['dims'], 'obc')
+    bonds = TREES[g['tree']](Nx, Ny)
+    if not is_spanning_tree(bonds, Nx, Ny, forest=True):
+        acc.cnt['bptree_not_a_tree_skipped'] += 1
+        return
+    N = Nx * Ny
+    nb = len(loc.basis_vectors())
+    psi = PG.make_state(loc, geo, ('pure', tuple((i + acc.seed) % 2 % nb for i in range(N))))
+    D = PG.Dense(loc, psi)
+    nn, lc = PG.gate_kinds(loc)
+    low = [x for x in nn if x[0] in LOWRANK] or nn[:1]
+    for k, b in enumerate(bonds):
+        kind, par = low[k % len(low)]
+        psi.apply_gate_(PG.build_gate(loc, {'kind': kind, 'par': par, 'step': PG.jstep(0.35j + 0.15 * (k % 3) + 0.05 * k), 'sites': [list(b[0]), list(b[1])]}))
+    ref = Ref(loc, geo, psi, D)
+    gg = dict(g, env='bp')
+    rec = Rec(dict(gg, kind='bptree'), acc, ref)
+    rec.base['tree'] = g['tree']
+    for tol in (1e-12, None):
+        def build():
+            env = fpeps.EnvBP(psi)
+            if tol is None:
+                env.iterate_(max_sweeps=4 * N)
+            else:
+                env.iterate_(max_sweeps=8 * N, diff_tol=tol)
+            return env
+        st, env = TC.call(build)
+        if st != 'ok':
+            acc.fail(dict(rec.base, method='build', diff_tol=tol), f"building EnvBP on a tree state failed: {st}: {env}")
+            continue
+        O = loc.O
+        for (name,) in neutral_tuples(loc, 1):
+            st, out = TC.call(lambda: env.measure_1site(O[name]))
+            if st != 'ok':
+                rec.error('measure_1site', (name,), [(0, 0)], st, out, {'diff_tol': tol})
+                continue
+            for s_ in [tuple(x) for x in geo.sites()]:
+                rec.value('measure_1site', (name,), [s_], out.get(s_), {'diff_tol': tol, 'tree': g['tree']})
+        for names in pick(neutral_tuples(loc, 2), 3, acc.seed):
+            for b in bonds:
+                for bb in (b, b[::-1]):
+                    st, val = TC.call(lambda: env.measure_nn(O[names[0]], O[names[1]], bond=bb))
+                    if st != 'ok':
+                        rec.error('measure_nn', names, bb, st, val, {'diff_tol': tol})
+                    else:
+                        rec.value('measure_nn', names, bb, val, {'diff_tol': tol, 'tree': g['tree']})
+    acc.cnt['bptree_states'] += 1
+    acc.sample(dict(rec.base))
 
 
 # ---------------------------------------------------------------------------------------------
@@ -524,6 +657,12 @@ def replay(case):
     if k == 'evol':
         m, _ = evol_case(case, case['gate'], case['which'], case['opts'], seed)
         return [m] if m else []
+    if k == 'bptree':
+        acc = _Mini()
+        acc.seed = seed
+        run_bptree({x: case[x] for x in ('fam', 'sym', 'dims', 'spec', 'var', 'tree')} | {'kind': 'bptree'}, acc)
+        keys = [x for x in case if x not in ('seed',)]
+        return [v['msg'] for v in acc.violations if all(v['case'].get(x) == case.get(x) for x in keys)][:3]
     if k == 'measure':
         acc = _Mini()
         acc.seed = seed
